@@ -291,5 +291,17 @@ os.makedirs(os.path.dirname(OUT), exist_ok=True)
 old = open(OUT).read() if os.path.exists(OUT) else None
 if old != body:
     open(OUT, "w").write(body)
-status["_values"] = {"search_kind_order": order, "display_kind_order": dorder, "panic_sites": [[r, a, b, c] for r, a, b, c in sites]}
+# --- C05 / C03: which method of `Nodes` (src/nodes.rs) does what to the `sorted` flag (tripwire: the model of the cache,
+# Model/NodesCache.lean, mirrors this table)
+nsrc_ = strip_comments(read_where("src/nodes.rs", r"struct\s+Nodes\b"))
+cache_ops = {}
+for fm in re.finditer(r"fn\s+(\w+)\s*(?:<[^>]*>)?\s*\([^)]*\)[^{;]*\{((?:[^{}]|\{(?:[^{}]|\{[^{}]*\})*\})*)\}", nsrc_, flags=re.S):
+    name_, body_ = fm.group(1), fm.group(2)
+    if name_ in ("new", "push", "remove", "iter_mut", "index_mut", "sort", "default"):
+        eff = "true" if re.search(r"self\.sorted\s*=\s*true", body_) else "false" if re.search(r"sorted\s*[:=]\s*false", body_) else "keep"
+        if name_ == "sort" and re.search(r"if\s+self\.sorted\s*\{\s*return", body_):
+            eff += "+early-return"
+        cache_ops[name_] = eff
+status["nodes_cache_ops"] = "ok" if cache_ops else "unavailable"
+status["_values"] = {"nodes_cache_ops": cache_ops, "search_kind_order": order, "display_kind_order": dorder, "panic_sites": [[r, a, b, c] for r, a, b, c in sites]}
 print(json.dumps(status))
